@@ -345,6 +345,7 @@ func (s *Writer) replaceRoot(newSnapshot *Snapshot, persistedCh chan error, pers
 	}
 	rootPrev := s.root
 	s.root = newSnapshot
+	verifTrace(s, "root", newSnapshot, 0)
 	if s.root != nil {
 		atomic.StoreUint64(&s.stats.CurRootEpoch, s.root.epoch)
 	}
